@@ -19,7 +19,7 @@ NoDesc  == [kind |-> "env", t0 |-> 0, n |-> 0]
 Acts    == [n : Nodes, f : MCFields, v : MCValues]
 Apply(vl, act) == SetOp(vl, act.n, act.f, act.v)
 
-Init == /\ val = Val0 /\ hist = <<>>
+Init == /\ val = (IF Mode = "tree" THEN Val0 ELSE <<>>) /\ hist = <<>>
         /\ IF Mode = "window" THEN o \in Descriptors /\ b \in 0..WMax /\ e \in b..WMax ELSE o = NoDesc /\ b = 0 /\ e = 0
         /\ IF Mode = "total" THEN a \in Archetypes /\ w \in Windows ELSE a = "empty" /\ w = "default"
 
